@@ -338,6 +338,32 @@ def walk(ctx, phase):
     from pyscsi.pyscsi.scsi_cdb_testunitready import TestUnitReady
     from pyscsi.pyscsi.scsi_opcode import OpCode
 
+    # application subclasses of OpCode whose value is computed (a vendor's base code plus an offset; a code looked up in a
+    # quirk table): `value` is the operation code, whatever the object was constructed with
+    class Computed(OpCode):
+        def __init__(self, name, base, offset):
+            OpCode.__init__(self, name, base, {})
+            self.offset = offset
+
+        @property
+        def value(self):
+            return (OpCode.value.fget(self) + self.offset) & 0xFF
+
+    class Looked(OpCode):
+        table = {}
+
+        @property
+        def value(self):
+            return self.table[self.name]
+
+    for base_code in (0x00, 0x08, 0x28, 0x88, 0xA0, 0xC0):
+        for v2 in range(256):
+            ctx.case("len-computed:%s:%02x:%02x" % (phase, base_code, v2), True)
+            judge_len("opcode_subclass_with_computed_value", v2, lambda: SCSICommand.init_cdb(Computed("X", base_code, (v2 - base_code) & 0xFF)), {"opcode": v2, "constructed_with": base_code})
+            Looked.table["Y"] = v2
+            judge_len("opcode_subclass_with_looked_up_value", v2, lambda: SCSICommand.init_cdb(Looked("Y", base_code, {})), {"opcode": v2, "constructed_with": base_code})
+            if phase == "after_import":
+                ctx.count("opcode_subclass_probes", 2)
     for v1 in (0x00, 0x12, 0x28, 0x5E, 0x60, 0x7F, 0x88, 0xA8, 0xC0, 0xFF):
         for v2 in range(256):
             oc = OpCode("X", v1, {})
